@@ -24,5 +24,4 @@ rm -f zz_seeded_demo_test.go
 echo "full suite with change:" >> $res
 $GO test -vet=off -count=1 -timeout 25m ./... 2>&1 | tail -5 >> $res; echo "rc=${PIPESTATUS[0]}" >> $res
 cd /; git -C /repo worktree remove --force $wt
-$GO clean -cache >/dev/null 2>&1 || true
 echo done >> $res
